@@ -55,6 +55,12 @@ var c13Tags = func() []string {
 	t = append(t, "set-on-nonleaf")
 	t = append(t, "match-valid", "match-long", "match-base-deeper", "match-foreign-base", "match-syntax", "match-other")
 	t = append(t, "rel-valid", "rel-up", "rel-query", "rel-up-query", "rel-up-query-other", "rel-no-parent", "rel-bad")
+	t = append(t, "path-below-any", "path-below-action", "path-key-on-any", "path-key-on-action")
+	for _, k := range []string{"json-at-list/", "json-insert-at-list/", "json-at-entry/"} {
+		for _, v := range c13ShapeVals {
+			t = append(t, k+v)
+		}
+	}
 	return t
 }()
 
@@ -1156,10 +1162,148 @@ func c13Matches(r *gen.Rng, w *c13World, pos []*c13Pos) []*c13Req {
 
 // ---- all streams of one world ------------------------------------------------------------------------
 
+// ---- list segments with fewer / exactly / more key values than the list has keys, on every backend ------
+
+var c13Impls = []string{"", "json", "reflect"}
+
+// c13Keys: for every list of the world (with or without data) and every entry, the segment "list=v1,..,vm" for
+// m = 1 .. keys+2 (the first values are those of the entry when there is one), alone, followed by a child, by an
+// unknown child and by a query; each on the reference store, on the JSON reader and on reflection
+func c13Keys(r *gen.Rng, w *c13World, pos []*c13Pos) []*c13Req {
+	var out []*c13Req
+	extras := []string{"zz", "7", "%20", "", "-1"}
+	for _, p := range pos {
+		if p.kind != "list" && p.kind != "row" {
+			continue
+		}
+		n := len(p.s.Keys)
+		base := p.path
+		var vals []string
+		if p.kind == "row" {
+			eq := strings.LastIndex(p.path, "=")
+			base = p.path[:eq]
+			vals = strings.Split(p.path[eq+1:], ",")
+		} else {
+			for i := 0; i < n; i++ {
+				vals = append(vals, "1")
+			}
+		}
+		vals = append(vals, extras[r.Intn(len(extras))], extras[r.Intn(len(extras))])
+		kid := "x"
+		for i, k := range p.s.Kids {
+			isKey := false
+			for _, ki := range p.s.Keys {
+				isKey = isKey || ki == i
+			}
+			if !isKey && len(k.Guard) == 0 {
+				kid = k.Name
+				break
+			}
+		}
+		for m := 1; m <= n+2; m++ {
+			tag := "path-valid"
+			if m < n {
+				tag = "path-too-few-keys"
+			} else if m > n {
+				tag = "path-too-many-keys"
+			}
+			seg := base + "=" + strings.Join(vals[:m], ",")
+			for _, suffix := range []string{"", "/" + kid, "/nosuch", "?depth=1", "/" + kid + "?fields=" + kid} {
+				if m == n+2 && suffix != "" {
+					continue
+				}
+				for _, impl := range c13Impls {
+					out = append(out, &c13Req{W: w.Idx, Kind: "path", Tag: tag, Text: seg + suffix, Impl: impl})
+				}
+			}
+		}
+	}
+	return out
+}
+
+// c13Below: every node that holds no definitions (leaf, leaf-list, choice, anydata, anyxml, action, rpc) at every
+// position that has data (and at the root), with further segments after it and with a key on it; the node itself is
+// never the last segment (the reference store does not know anydata and actions)
+func c13Below(r *gen.Rng, w *c13World, pos []*c13Pos) []*c13Req {
+	var out []*c13Req
+	probe := func(kind, t string) {
+		texts := []string{t + "/x", t + "/x/y", t + "/x/y=1,2", t + "/" + t[strings.LastIndex(t, "/")+1:], t + "/x?depth=1", t + "/input/x", t + "/x/"}
+		for _, text := range texts {
+			for _, impl := range c13Impls {
+				out = append(out, &c13Req{W: w.Idx, Kind: "path", Tag: "path-below-" + kind, Text: text, Impl: impl})
+			}
+		}
+		for _, text := range []string{t + "=1/x", t + "=1,2/x?depth=1"} {
+			for _, impl := range c13Impls {
+				out = append(out, &c13Req{W: w.Idx, Kind: "path", Tag: "path-key-on-" + kind, Text: text, Impl: impl})
+			}
+		}
+	}
+	at := func(s *tree.SNode, path string) {
+		names, kinds := c13Terminals(s)
+		for i := range names {
+			probe(kinds[i], c13Join(path, names[i]))
+		}
+		for _, ch := range s.Choices {
+			probe("choice", c13Join(path, ch.Ident()))
+		}
+		for _, k := range s.Kids {
+			if k.Kind == tree.KLeaf {
+				kind := "leaf"
+				if k.IsList {
+					kind = "leaflist"
+				}
+				probe(kind, c13Join(path, k.Name))
+			}
+		}
+	}
+	at(w.Root, "")
+	for _, p := range pos {
+		if !p.absent && (p.kind == "cont" || p.kind == "row") {
+			at(p.s, p.path)
+		}
+	}
+	return out
+}
+
+// c13AtList: edits that start at a list selection (body { list : v }) and at a list entry (body v) with every JSON
+// kind in the place of the array / the entry object
+func c13AtList(r *gen.Rng, w *c13World, pos []*c13Pos) []*c13Req {
+	var out []*c13Req
+	for _, p := range pos {
+		if p.absent {
+			continue
+		}
+		for _, v := range c13ShapeVals {
+			body, _ := json.Marshal(c13ShapeValue(v))
+			switch p.kind {
+			case "list":
+				doc := fmt.Sprintf(`{%q:%s}`, p.s.Name, body)
+				out = append(out, &c13Req{W: w.Idx, Kind: "json", Tag: "json-at-list/" + v, Text: doc, At: p.path},
+					&c13Req{W: w.Idx, Kind: "json", Tag: "json-insert-at-list/" + v, Text: doc, At: p.path})
+			case "row":
+				out = append(out, &c13Req{W: w.Idx, Kind: "json", Tag: "json-at-entry/" + v, Text: string(body), At: p.path})
+			}
+		}
+	}
+	return out
+}
+
 func c13Streams(r *gen.Rng, w *c13World, budget int, thorough bool) []*c13Req {
 	pos := c13Positions(w)
 	share := func(pct int) int { return budget * pct / 100 }
 	var out []*c13Req
+	if w.Keys {
+		// the fixed world of multi-key lists and of nodes without definitions: only the streams that never name an
+		// anydata / action as the last segment
+		out = append(out, c13Sample(r.Fork(21), c13Keys(r.Fork(31), w, pos), share(40))...)
+		out = append(out, c13Sample(r.Fork(22), c13Below(r.Fork(32), w, pos), share(40))...)
+		out = append(out, c13Sample(r.Fork(23), c13AtList(r.Fork(33), w, pos), share(20))...)
+		return out
+	}
+	out = append(out, c13Sample(r.Fork(21), c13Keys(r.Fork(31), w, pos), share(8))...)
+	out = append(out, c13Sample(r.Fork(22), c13Below(r.Fork(32), w, pos), share(6))...)
+	out = append(out, c13Sample(r.Fork(23), c13AtList(r.Fork(33), w, pos), share(6))...)
 	if w.Idx == 0 {
 		out = append(out, c13Confirmed()...)
 	}
